@@ -646,6 +646,53 @@ func c08RunScans(value string, oids []uint32) explore.Result {
 	return res
 }
 
+// c08RunCounts: the statement declares k parameter types, the Bind carries n values (n != k included): if the
+// Bind is accepted, the statement receives exactly the n values sent, in order, NULL distinguished from empty.
+func c08RunCounts(declared, sent int) explore.Result {
+	var res explore.Result
+	res.Outcome = "no-null"
+	res.Key = fmt.Sprint("counts", declared, sent)
+	var got []string
+	ran := false
+	parse := func(ctx context.Context, q string) (wire.PreparedStatements, error) {
+		return wire.Prepared(wire.NewStatement(func(ctx context.Context, w wire.DataWriter, params []wire.Parameter) error {
+			ran = true
+			for _, p := range params {
+				if p.Value() == nil {
+					got = append(got, "NULL")
+				} else {
+					got = append(got, fmt.Sprintf("%q", p.Value()))
+				}
+			}
+			return w.Complete("OK")
+		}, wire.WithParameters(make([]oid.Oid, declared)))), nil
+	}
+	one, err := harness.StartOne(parse)
+	if err != nil {
+		res.Engine = err.Error()
+		return res
+	}
+	defer one.Stop()
+	one.Step(pgproto.Startup("user", "u"))
+	var vals [][]byte
+	var want []string
+	for i := 0; i < sent; i++ {
+		switch i % 3 {
+		case 0:
+			vals, want = append(vals, []byte(fmt.Sprint("v", i))), append(want, fmt.Sprintf("%q", fmt.Sprint("v", i)))
+		case 1:
+			vals, want = append(vals, nil), append(want, "NULL")
+		default:
+			vals, want = append(vals, []byte{}), append(want, `""`)
+		}
+	}
+	out, _ := one.Step(pgproto.Cat(pgproto.Parse("", "q"), pgproto.Bind("", "", nil, vals, nil), pgproto.Execute("", 0), pgproto.Sync()))
+	if ran && !sameStrings(got, want) {
+		res.Fail("parameter-values", fmt.Sprintf("a statement declaring %d parameter types, a Bind carrying %d values %v (reply %q): the statement received %v", declared, sent, want, harness.Kinds(out), got))
+	}
+	return res
+}
+
 // c08RunReparse: a statement name is parsed, described, then parsed AGAIN with another text (no Close in between)
 // and described again (k times): every Describe announces the declared parameter types and columns of the
 // definition in force, and a Bind + Execute afterwards reaches that definition.
@@ -1015,6 +1062,13 @@ func c08Enumerate(tier string, emit explore.Emit) {
 			value, oids := value, oids
 			emit(explore.Case{Family: "string-rows", Size: 4, Desc: func() any { return map[string]any{"parameter_text": value, "scanned_with_types": oids} },
 				Run: func() explore.Result { return c08RunScans(value, oids) }})
+		}
+	}
+	for declared := 0; declared <= 4; declared++ {
+		for sent := 0; sent <= 5; sent++ {
+			declared, sent := declared, sent
+			emit(explore.Case{Family: "string-rows", Size: 5, Desc: func() any { return map[string]any{"declared_parameter_types": declared, "values_in_the_bind": sent} },
+				Run: func() explore.Result { return c08RunCounts(declared, sent) }})
 		}
 	}
 	// types pre-declared by the client in Parse
